@@ -721,6 +721,10 @@ func (V *Verifier) verifyFunction(fn *ssa.Function, lockMode bool) *FnResult {
 	for _, pt := range params {
 		ex.instCands[pt.Sort] = append(ex.instCands[pt.Sort], pt)
 	}
+	if c != nil && len(c.Modifies) > 0 {
+		ex.frameRef()
+		ex.frameKey(SStr)
+	}
 	if c != nil {
 		// skolem constants of this function's own quantified postconditions exist from the start,
 		// so that callee contracts assumed along the way are instantiated at them
@@ -735,17 +739,25 @@ func (V *Verifier) verifyFunction(fn *ssa.Function, lockMode bool) *FnResult {
 				quantified = append(quantified, inv.Expr)
 			}
 		}
-		for _, qe := range quantified {
+		var walk func(qe ast.Expr, depth int)
+		walk = func(qe ast.Expr, depth int) {
 			ast.Inspect(qe, func(n ast.Node) bool {
 				if ce, ok := n.(*ast.CallExpr); ok {
-					if id, ok := ce.Fun.(*ast.Ident); ok && id.Name == "forall" && len(ce.Args) == 3 {
-						if t, err := genv.typeOf(ce.Args[1]); err == nil {
-							ex.skolemFor(types.ExprString(ce), sc.sortOf(t))
+					if id, ok := ce.Fun.(*ast.Ident); ok {
+						if id.Name == "forall" && len(ce.Args) == 3 {
+							if t, err := genv.typeOf(ce.Args[1]); err == nil {
+								ex.skolemFor(types.ExprString(ce), sc.sortOf(t))
+							}
+						} else if d, ok := V.specs.defines[id.Name]; ok && depth < 8 {
+							walk(d.Body, depth+1) // quantifiers inside macro bodies
 						}
 					}
 				}
 				return true
 			})
+		}
+		for _, qe := range quantified {
+			walk(qe, 0)
 		}
 	}
 	if c != nil {
@@ -882,6 +894,36 @@ func (ex *Exec) lockBalance(f *frame, c *Contract) {
 
 func (ex *Exec) compSorts(k string) string { return ex.V.compSorts[k] }
 
+// frameRef: the arbitrary pre-existing object of the frame obligations. It exists from the start of the function so that
+// quantified invariants and callee postconditions assumed along the way are instantiated at it.
+func (ex *Exec) frameRef() Term {
+	t := ex.sc.declare("frameref", SInt)
+	for _, c := range ex.instCands[SInt] {
+		if c.S == t.S {
+			return t
+		}
+	}
+	if ex.instCands == nil {
+		ex.instCands = map[string][]Term{}
+	}
+	ex.instCands[SInt] = append(ex.instCands[SInt], t)
+	return t
+}
+
+func (ex *Exec) frameKey(sort string) Term {
+	t := ex.sc.declare("framekey:"+sort, sort)
+	for _, c := range ex.instCands[sort] {
+		if c.S == t.S {
+			return t
+		}
+	}
+	if ex.instCands == nil {
+		ex.instCands = map[string][]Term{}
+	}
+	ex.instCands[sort] = append(ex.instCands[sort], t)
+	return t
+}
+
 // frameObligations: everything outside the declared modifies clause is unchanged for objects that existed at entry.
 func (ex *Exec) frameObligations(f *frame, c *Contract) {
 	env := ex.frameEnv(f, f.entry, f.entry)
@@ -915,12 +957,19 @@ func (ex *Exec) frameObligations(f *frame, c *Contract) {
 			continue
 		}
 		if strings.HasPrefix(sort, "(Array Int ") && !strings.HasPrefix(k, "G:") {
-			r := ex.sc.freshConst("frameref", SInt)
-			hyp := []Term{app(SBool, "<", r, n0)}
+			r := ex.frameRef()
+			hyp := []Term{app(SBool, "<", r, n0), not(eq(r, intLit(0)))} // an object that existed at entry (nil is not an object)
 			for _, a := range allowedRefs[k] {
 				hyp = append(hyp, not(eq(r, a)))
 			}
-			ex.oblige(f, f.exit, "frame", k, "", f.fn.Pos(), implies(and(hyp...), eq(sel(post, r), sel(pre, r))), "frame: "+k+" unchanged outside the modifies clause")
+			goal := eq(sel(post, r), sel(pre, r))
+			if es := arrayElemSort(sort); strings.HasPrefix(es, "(Array ") {
+				// a map component: compared entry by entry at an arbitrary key (which is an instantiation candidate too)
+				ks, _ := splitArraySort(es)
+				kc := ex.frameKey(ks)
+				goal = eq(sel(sel(post, r), kc), sel(sel(pre, r), kc))
+			}
+			ex.oblige(f, f.exit, "frame", k, "", f.fn.Pos(), implies(and(hyp...), goal), "frame: "+k+" unchanged outside the modifies clause")
 		} else {
 			ex.oblige(f, f.exit, "frame", k, "", f.fn.Pos(), eq(post, pre), "frame: "+k+" unchanged")
 		}
@@ -1434,12 +1483,137 @@ func (V *Verifier) contractComps(ct *Contract) (comps map[string]bool, star bool
 		default:
 			if g, ok := V.specs.ghosts[it]; ok {
 				comps["G:"+g.Name] = true
+			} else if cs, ok := V.staticItemComps(ct, it); ok {
+				// object-level item: without the call's arguments, the whole components it can touch
+				for _, c := range cs {
+					comps[c] = true
+				}
 			} else {
-				star = true // object-level item: not resolvable without the call's arguments
+				star = true
 			}
 		}
 	}
 	return comps, star
+}
+
+// staticItemComps: the heap components an object-level modifies item (x.f, x.*, m[*]) can touch, from the static types
+// of the contracted function's parameters.
+func (V *Verifier) staticItemComps(ct *Contract, it string) ([]string, bool) {
+	var fn *ssa.Function
+	for _, g := range V.P.All {
+		if funcName(g) == ct.Key {
+			fn = g
+			break
+		}
+	}
+	if fn == nil {
+		return nil, false
+	}
+	params := map[string]types.Type{}
+	for _, p := range fn.Params {
+		params[p.Name()] = p.Type()
+	}
+	text := it
+	contents, allFields := false, false
+	if strings.HasSuffix(text, "[*]") {
+		contents = true
+		text = strings.TrimSuffix(text, "[*]")
+	}
+	if strings.HasSuffix(text, ".*") {
+		allFields = true
+		text = strings.TrimSuffix(text, ".*")
+	}
+	e, err := parseSpecExpr(text)
+	if err != nil {
+		return nil, false
+	}
+	var typeOf func(e ast.Expr) types.Type
+	typeOf = func(e ast.Expr) types.Type {
+		switch x := e.(type) {
+		case *ast.ParenExpr:
+			return typeOf(x.X)
+		case *ast.Ident:
+			return params[x.Name]
+		case *ast.StarExpr:
+			if t := typeOf(x.X); t != nil {
+				if p, ok := t.Underlying().(*types.Pointer); ok {
+					return p.Elem()
+				}
+			}
+		case *ast.IndexExpr:
+			if t := typeOf(x.X); t != nil {
+				switch u := t.Underlying().(type) {
+				case *types.Map:
+					return u.Elem()
+				case *types.Slice:
+					return u.Elem()
+				}
+			}
+		case *ast.SelectorExpr:
+			if t := typeOf(x.X); t != nil {
+				if p, ok := t.Underlying().(*types.Pointer); ok {
+					t = p.Elem()
+				}
+				if _, ft := fieldPath(t, x.Sel.Name); ft != nil {
+					return ft
+				}
+			}
+		}
+		return nil
+	}
+	withPrefix := func(pfx string) []string {
+		var out []string
+		for c := range V.compSorts {
+			if strings.HasPrefix(c, pfx) {
+				out = append(out, c)
+			}
+		}
+		return out
+	}
+	if contents {
+		t := typeOf(e)
+		if t == nil {
+			return nil, false
+		}
+		switch u := t.Underlying().(type) {
+		case *types.Map:
+			return []string{compMapDom(u), compMapVal(u), compMapLen(u)}, true
+		case *types.Slice:
+			return []string{compElem(u.Elem())}, true
+		}
+		return nil, false
+	}
+	if allFields {
+		t := typeOf(e)
+		if t == nil {
+			return nil, false
+		}
+		p, ok := t.Underlying().(*types.Pointer)
+		if !ok {
+			return nil, false
+		}
+		return withPrefix("F:" + namedKey(p.Elem()) + "."), true
+	}
+	se, ok := e.(*ast.SelectorExpr)
+	if !ok {
+		return nil, false
+	}
+	bt := typeOf(se.X)
+	if bt == nil {
+		return nil, false
+	}
+	p, ok := bt.Underlying().(*types.Pointer)
+	if !ok {
+		return nil, false
+	}
+	path, ft := fieldPath(p.Elem(), se.Sel.Name)
+	if path == "" {
+		return nil, false
+	}
+	if _, isStruct := ft.Underlying().(*types.Struct); isStruct {
+		return withPrefix(compField(p.Elem(), path) + "."), true
+	}
+	return []string{compField(p.Elem(), path)}, true
 }
 
 // expandMods turns wildcard / contract entries into concrete registered component names.
